@@ -43,7 +43,7 @@ da81c69 C05 C05.order
 4a537a7 C05 C05.sorting
 85d9ea4 C06 C06.nullpages
 0a0ad91 C14 C14.copylen
-bb27335 C14 C14.chunkeof
+50c76da+bb27335 C14 C14.chunkeof
 0a27348 C18 C18.missingkey
 33f53b2 C01 C01.lazybuffer
 ffad523 C05 C05.boundary
@@ -66,6 +66,8 @@ b6c22a4 C08 C08.coherence
 f53f4fe C17 C17.regrow
 5768bef C03 C03.loopfresh
 51a54bc C08 C08.rowsfollow
+3c07812 C16 C16.retainrow
+50c76da C14 C14.chunkeof
 LIST
 git -C /repo worktree remove --force $WT
 rm -rf /tmp/fixcheck-ev
